@@ -1,23 +1,32 @@
 """C17 — v4 time and frequency axes; preselection is equivalent to selection."""
+import os
 from fractions import Fraction
 
 import numpy as np
+from katsdptelstate.rdb_writer import RDBWriter
 
+import katdal
+import katpoint
 from fixtures import v4
 from katdal.spectral_window import SpectralWindow
 
-RULE = ('(a) v4 data sets with dyadic timing attributes, capture start one second either side of each documented fix '
-        'date or far from it, both CBF generations and modes, with/without CBF attributes, time_offset, preselected '
-        'dump ranges: timestamps/start/end/time_offset compared exactly with the model and the spec; '
-        '(b) SpectralWindow objects N in 1..9, both sidebands: channel_freqs, every subrange(first,last) incl. invalid '
-        'ones, every rechannelise(M), compared exactly; (c) preselected vs fully opened data set on the same store: '
-        'timestamps, freqs, vis, flags, weights, a numeric sensor, later relative selections; (d) preselect validation. '
+RULE = ('(a) v4 data sets with dyadic timing attributes: capture start (incl. time_offset) exactly on, one second / a '
+        'quarter second / an hour / whole days either side of each documented fix date or far from it, both CBF '
+        'generations and modes, with/without CBF attributes, time_offset, preselected dump ranges given as normalised or '
+        'un-normalised slices (None, negative, overshooting ends), opened directly or through katdal.open on an RDB file: '
+        'timestamps/start/end/time_offset compared exactly with the model and the spec; '
+        '(b) SpectralWindow objects N in 1..9, both sidebands: channel_freqs and attributes, every subrange(first,last) '
+        'incl. invalid ones, every rechannelise(M) incl. the aligned channel edges, compared exactly; '
+        '(c) preselected vs fully opened data set on the same store (dumps only / channels only / both, odd and even '
+        'channel counts): timestamps, freqs, channel_width, vis, flags, weights, a numeric sensor, start/end, later '
+        'relative selections; freqs of both also against centre + (k - N//2) * bandwidth / N of the telstate attributes; '
+        '(d) preselect validation: fixed and random key/step forms; (e) katpoint reads the fix dates as UTC midnight. '
         'A case is non-trivial when it has >= 2 dumps/channels; distinct by its full parameter tuple.')
 ASSUMPTIONS = ['float64 arithmetic is exact on the generated (dyadic) values, so comparisons are equalities',
-               'katpoint.Timestamp(date).secs is UTC midnight of the date',
-               'Python slice normalisation of preselect ranges is done by the harness (slice.indices)']
+               'Python slice normalisation of preselect ranges (slice.indices) is taken from Python, not modelled']
 
 FIX_DATES = [1549843200, 1551571200, 1552608000]
+DAY = 86400
 
 
 def q(x):
@@ -35,16 +44,23 @@ def exact(x):
 
 def gen_timing(rng):
     kind = rng.random()
-    if kind < 0.75:
+    off = rng.choice([0.0, 0.0, 0.25, -0.5, 3.0, -2.0, 86400.0, -86400.0])
+    if kind < 0.6:
+        # the capture start INCLUDING time_offset sits at / next to a fix date
         dte = rng.choice(FIX_DATES)
-        start = dte + rng.choice([-1, 0, 1, -2, 2, -7, 5, -3600, 3600]) + rng.choice([0, 0, 0.25, 0.5])
+        start = dte + rng.choice([-1, 0, 1, -2, 2, -7, 5, -3600, 3600, 0, -0.25, 0.25]) + rng.choice([0, 0, 0.25, 0.5]) - off
+    elif kind < 0.7:
+        # the capture start EXCLUDING time_offset sits at / next to a fix date
+        start = rng.choice(FIX_DATES) + rng.choice([-1, 0, 1, -0.25])
+    elif kind < 0.9:
+        # whole days around the dates (a date moved by days or weeks in the rule is then seen)
+        start = rng.choice(FIX_DATES) + DAY * rng.randint(-45, 45) + rng.choice([0, 0.5, -0.5])
     else:
         start = rng.choice([1500000000, 1549000000, 1560000000, 1600000000]) + rng.choice([0, 0.5])
     first = rng.choice([0.0, 123.0, 999.25, 10.5])
     sync = start - first
     int_time = rng.choice([0.5, 1.0, 2.0, 4.0, 8.0])
-    off = rng.choice([0.0, 0.0, 0.25, -0.5, 3.0, -2.0])
-    cbf = rng.choice([None, 0.25, 0.5, 0.5, 1.0])
+    cbf = rng.choice([None, 0.25, 0.5, 0.5, 1.0, 0.125])
     if cbf is not None and cbf > int_time:
         cbf = int_time
     cmc2 = rng.random() < 0.5
@@ -52,12 +68,29 @@ def gen_timing(rng):
     return dict(sync=sync, first=first, int_time=int_time, off=off, cbf=cbf, cmc2=cmc2, cbf4k=cbf4k)
 
 
+def gen_slice(rng, n):
+    """(start, stop) of a unit-step slice over n items: plain, open-ended, negative or overshooting."""
+    k = rng.random()
+    a = rng.randint(0, n - 1)
+    b = rng.randint(a + 1, n)
+    if k < 0.4:
+        return (a, b)
+    start = rng.choice([a, a, a - n, None if a == 0 else a])
+    stop = rng.choice([b, b, None if b == n else b, b - n if b < n else n + rng.randint(0, 3), b])
+    if rng.random() < 0.06:
+        start, stop = b, a       # empty
+    return (start, stop)
+
+
 def wire_timing(t):
     return [q(t['sync']), q(t['first']), q(t['int_time']), q(t['off']),
             [q(t['cbf'])] if t['cbf'] is not None else [], int(t['cmc2']), int(t['cbf4k'])]
 
 
-def build(t, T, F, seed, tmp=None):
+def build(t, T, F, seed, cw=None, centre=None):
+    kw = {}
+    if cw is not None:
+        kw = dict(bandwidth=F * cw, center_freq=centre)
     return v4.build_v4(
         T=T, F=F, seed=seed, sync_time=t['sync'], first_timestamp=t['first'], int_time=t['int_time'],
         cbf=None if t['cbf'] is None else (t['cbf'], 64, 1712e6),
@@ -65,29 +98,88 @@ def build(t, T, F, seed, tmp=None):
         sub_product=('c856M4k' if t['cbf4k'] else 'c856M1k'),
         open_kwargs=dict(time_offset=t['off']),
         extra_sensors=[('anc_air_temperature',
-                        [(t['sync'] + t['first'] - 4.0, 1.0), (t['sync'] + t['first'] + 64.0, 69.0)])])
+                        [(t['sync'] + t['first'] - 4.0, 1.0), (t['sync'] + t['first'] + 64.0, 69.0)])], **kw)
+
+
+def write_rdb(x):
+    """The telstate of x as <store>/<cbid>/<cbid>_<stream>.rdb, so that katdal.open finds the adjacent npy store."""
+    d = os.path.join(x.tmp, x.cbid)
+    os.makedirs(d, exist_ok=True)
+    p = os.path.join(d, '%s_%s.rdb' % (x.cbid, x.stream))
+    if not os.path.exists(p):
+        with RDBWriter(p) as w:
+            w.save(x.telstate)
+    return p + '?capture_block_id=%s&stream_name=%s' % (x.cbid, x.stream)
+
+
+def open_pre(x, t, pre, via):
+    """A second data set on the same store, preselected.  via: 'direct' (TelstateDataSource + VisibilityDataV4) or
+    'open' (katdal.open of an RDB file)."""
+    if via == 'open':
+        kw = dict(time_offset=t['off'])
+        if pre is not None:
+            kw['preselect'] = pre
+        return katdal.open(write_rdb(x), **kw)
+    if pre is None:
+        return v4.reopen(x, {}, dict(time_offset=t['off']))
+    return v4.reopen(x, dict(preselect=pre), dict(preselect=pre, time_offset=t['off']))
+
+
+def fix_date_of(t):
+    return (FIX_DATES[0] if t['cbf4k'] else FIX_DATES[1]) if t['cmc2'] else FIX_DATES[2]
 
 
 def straddles(t, a):
     """Does the first preselected dump lie on the other side of the applicable fix date than the capture start?"""
-    dte = (FIX_DATES[0] if t['cbf4k'] else FIX_DATES[1]) if t['cmc2'] else FIX_DATES[2]
+    dte = fix_date_of(t)
     s0 = t['sync'] + t['first'] + t['off']
     sa = s0 + a * t['int_time']
     return (s0 < dte) != (sa < dte)
 
 
-def check_timing(ctx, t, T, a, b):
-    """Open (optionally preselected a:b) and compare with model (tie) and spec (property)."""
+def spec_py(t, a, n):
+    dte = fix_date_of(t)
+    s0 = Fraction(t['sync']) + Fraction(t['first']) + Fraction(t['off'])
+    fix = Fraction(t['cbf']) if (t['cbf'] is not None and s0 < dte) else 0
+    return [s0 + (a + i) * Fraction(t['int_time']) - fix for i in range(n)]
+
+
+def where(t):
+    """Position of the capture start (incl. time_offset) relative to the applicable fix date, for signatures."""
+    s0 = Fraction(t['sync']) + Fraction(t['first']) + Fraction(t['off'])
+    dte = fix_date_of(t)
+    return 'on' if s0 == dte else ('before' if s0 < dte else 'after')
+
+
+def timing_case(t):
+    return {k: (float(v) if isinstance(v, float) else v) for k, v in t.items()}
+
+
+def check_timing(ctx, t, T, a=None, b=None, via='direct', sl=None):
+    """Open (optionally preselected) and compare with model (tie) and spec (property).
+    sl = (start, stop) as given to preselect; default the normalised (a, b); (0, T) with sl None = no preselect."""
+    if sl is None:
+        sl = (a, b)
+    a, b, _ = slice(sl[0], sl[1]).indices(T)
     x = build(t, T, 4, ctx.seed)
+    case = dict(timing=timing_case(t), T=T, a=a, b=b, via=via, sl=list(sl))
+    pre = None if tuple(sl) == (0, T) else dict(dumps=slice(sl[0], sl[1]))
     try:
-        pre = None if (a, b) == (0, T) else dict(dumps=slice(a, b))
-        d = x.d if pre is None else v4.reopen(x, dict(preselect=pre), dict(preselect=pre, time_offset=t['off']))
-        n = b - a
+        try:
+            d = x.d if (pre is None and via == 'direct') else open_pre(x, t, pre, via)
+        except IndexError:
+            if b <= a:
+                # an empty preselection is outside the domain: rejecting it is fine
+                ctx.note_case(('timing-empty', repr(sorted(t.items())), T, tuple(sl), via), nontrivial=False)
+                ctx.count('timing:empty_rejected')
+                return
+            raise
+        n = max(b - a, 0)
         impl_ts = [exact(v) for v in d.timestamps]
-        impl = dict(ts=impl_ts, start=exact(d.start_time.secs), end=exact(d.end_time.secs), off=exact(d.time_offset))
+        impl = dict(ts=impl_ts, start=exact(d.start_time.secs), end=exact(d.end_time.secs), off=exact(d.time_offset),
+                    dump_period=exact(d.dump_period))
     finally:
         v4.cleanup(x)
-    case = dict(timing={k: (float(v) if isinstance(v, float) else v) for k, v in t.items()}, T=T, a=a, b=b)
     if ctx.model_ok:
         mo = ctx.model([[17, [1, wire_timing(t), a, n]]])[0]
         m_ts, s_ts = [fq(p) for p in mo[0]], [fq(p) for p in mo[1]]
@@ -97,32 +189,51 @@ def check_timing(ctx, t, T, a, b):
         m_ts, m_start, m_end, m_off = impl_ts, impl['start'], impl['end'], impl['off']
     if impl_ts != m_ts or impl['start'] != m_start or impl['end'] != m_end or impl['off'] != m_off:
         ctx.disagree('what=timestamps_tie;preselect=%s' % (pre is not None), case,
-                     [float(v) for v in impl_ts[:3]], [float(v) for v in m_ts[:3]],
+                     [float(v) for v in impl_ts[:3]] + [float(impl['start']), float(impl['end']), float(impl['off'])],
+                     [float(v) for v in m_ts[:3]] + [float(m_start), float(m_end), float(m_off)],
                      'implementation timestamps/start/end/time_offset differ from the model', kind='tie')
     if impl_ts != s_ts:
         if pre is not None and straddles(t, a):
             sig = 'preselect;straddles_fix_date;symptom=timestamps_shifted_by_cbf_dump'
         else:
-            sig = 'what=timestamps;preselect=%s;lite=%s' % (pre is not None, t['cbf'] is None)
+            sig = 'what=timestamps;preselect=%s;lite=%s;start=%s' % (pre is not None, t['cbf'] is None, where(t))
         ctx.disagree(sig, case, [float(v) for v in impl_ts[:3]], None,
                      'timestamps differ from sync+first+i*int+offset (-1 CBF dump before the documented fix date)',
                      spec=[float(v) for v in s_ts[:3]])
     half = Fraction(t['int_time']) / 2
     if impl_ts and (impl['start'] != impl_ts[0] - half or impl['end'] != impl_ts[-1] + half):
         ctx.disagree('what=start_end_bracket', case, [float(impl['start']), float(impl['end'])], None,
-                     'start/end time do not bracket the first/last dump by half a dump')
+                     'start/end time do not bracket the first/last dump by half a dump',
+                     spec=[float(impl_ts[0] - half), float(impl_ts[-1] + half)])
+    if impl['dump_period'] != Fraction(t['int_time']):
+        ctx.disagree('what=dump_period', case, float(impl['dump_period']), None, 'dump_period is not int_time',
+                     spec=t['int_time'])
     ctx.traces_validated += 1
-    ctx.note_case(('timing', repr(sorted(t.items())), T, a, b), nontrivial=n >= 2,
+    ctx.note_case(('timing', repr(sorted(t.items())), T, tuple(sl), via), nontrivial=n >= 2,
                   sample=dict(kind='timing', **case))
     ctx.count('timing:preselected' if pre is not None else 'timing:full')
     ctx.count('timing:lite' if t['cbf'] is None else 'timing:cbf')
+    ctx.count('timing:start_' + where(t))
+    ctx.count('timing:via_' + via)
+    if pre is not None and tuple(sl) != (a, b):
+        ctx.count('timing:unnormalised_slice')
 
 
-def spec_py(t, a, n):
-    dte = (FIX_DATES[0] if t['cbf4k'] else FIX_DATES[1]) if t['cmc2'] else FIX_DATES[2]
-    s0 = Fraction(t['sync']) + Fraction(t['first']) + Fraction(t['off'])
-    fix = Fraction(t['cbf']) if (t['cbf'] is not None and s0 < dte) else 0
-    return [s0 + (a + i) * Fraction(t['int_time']) - fix for i in range(n)]
+def check_fix_date_reading(ctx):
+    """katpoint.Timestamp('<date>').secs, as used by _before, is UTC midnight of the date for the dates of the rule."""
+    try:
+        from vh import core
+        from vh.items import c17 as items
+        dates = items.fix_date_strings(core.REPO)
+    except Exception:
+        dates = []
+    for (s, secs) in dates + [('2019-02-11', FIX_DATES[0]), ('2019-03-03', FIX_DATES[1]), ('2019-03-15', FIX_DATES[2])]:
+        got = katpoint.Timestamp(s).secs
+        if got != secs:
+            ctx.disagree('what=fix_date_reading', dict(date=s), got, None,
+                         'katpoint.Timestamp(date).secs is not UTC midnight of the date', spec=secs)
+        ctx.note_case(('date', s), sample=None)
+        ctx.count('fix_date_reading')
 
 
 # ---------------------------------------------------------------------------- spectral windows
@@ -130,8 +241,7 @@ def spec_py(t, a, n):
 def spw_cases(ctx):
     rng = ctx.rng
     out = []
-    ns = range(1, 10) if ctx.tier == 'thorough' else [1, 2, 3, 4, 5, 8, 9]
-    for n in ns:
+    for n in range(1, 10):
         for side in (1, -1):
             cw = rng.choice([1.0, 0.5, 4.0])
             bw = cw * 2520.0
@@ -140,93 +250,178 @@ def spw_cases(ctx):
     return out
 
 
-def check_spw(ctx, centre, bw, n, side):
-    w = SpectralWindow(centre, bw / n, n, sideband=side, bandwidth=bw)
+def spw_attrs(s):
+    return [exact(s.centre_freq), exact(s.bandwidth), int(s.num_chans), int(s.sideband), exact(s.channel_width)]
+
+
+def model_attrs(o):
+    return [fq(o[0]), fq(o[1]), o[2], o[3], fq(o[4])]
+
+
+def check_spw(ctx, centre, bw, n, side, via_width=False):
+    if via_width:
+        w = SpectralWindow(centre, bw / n, n, sideband=side)          # bandwidth derived from the channel width
+    else:
+        w = SpectralWindow(centre, 1.0, n, sideband=side, bandwidth=bw)   # channel width derived from the bandwidth
     wire = [q(centre), q(bw), n, side]
     cases = [[17, [2, wire]]]
     subs = [(f, l) for f in range(-1, n + 1) for l in range(-1, n + 2)]
     ms = list(range(1, 10))
     cases += [[17, [3, wire, f, l]] for f, l in subs]
     cases += [[17, [4, wire, m]] for m in ms]
-    if not ctx.model_ok:
-        return
-    outs = ctx.model(cases)
-    case = dict(centre=centre, bandwidth=bw, num_chans=n, sideband=side)
-    if [exact(v) for v in w.channel_freqs] != [fq(p) for p in outs[0]]:
-        ctx.disagree('what=channel_freqs', case, w.channel_freqs.tolist(), [float(fq(p)) for p in outs[0]],
-                     'channel_freqs differ from centre + sideband*(k - N//2)*bandwidth/N')
-    for (f, l), o in zip(subs, outs[1:1 + len(subs)]):
+    case = dict(centre=centre, bandwidth=bw, num_chans=n, sideband=side, via_width=via_width)
+    f0 = [exact(v) for v in w.channel_freqs]
+    cw0 = Fraction(bw) / n
+    want0 = [Fraction(centre) + side * (k - n // 2) * Fraction(bw) / n for k in range(n)]    # the property itself
+    if f0 != want0 or exact(w.channel_width) != cw0 or exact(w.bandwidth) != Fraction(bw):
+        ctx.disagree('what=channel_freqs', case, w.channel_freqs.tolist(), None,
+                     'channel_freqs / channel_width differ from centre + sideband*(k - N//2)*bandwidth/N, bandwidth/N',
+                     spec=[float(v) for v in want0])
+    outs = ctx.model(cases) if ctx.model_ok else None
+    if outs is not None and (f0 != [fq(p) for p in outs[0][0]] or want0 != [fq(p) for p in outs[0][1]]):
+        ctx.disagree('what=channel_freqs_tie', case, w.channel_freqs.tolist(), [float(fq(p)) for p in outs[0][0]],
+                     'channel_freqs differ from the model', kind='tie')
+    for k, (f, l) in enumerate(subs):
         try:
             s = w.subrange(f, l)
             got = [exact(v) for v in s.channel_freqs]
         except IndexError:
-            got = None
-        exp = [fq(p) for p in o[1]] if o else None
-        want = [exact(v) for v in w.channel_freqs[f:l]] if (0 <= f < l <= n) else None   # the property itself
-        if got != exp or got != want:
+            s = got = None
+        valid = (0 <= f < l <= n)
+        want = want0[f:l] if valid else None
+        if got != want or (s is not None and (exact(s.channel_width) != cw0 or s.num_chans != l - f
+                                              or exact(s.bandwidth) != cw0 * (l - f) or s.sideband != side)):
             ctx.disagree('what=subrange', dict(case, first=f, last=l), None if got is None else [float(v) for v in got],
-                         None if exp is None else [float(v) for v in exp],
-                         'subrange(first,last) channel centres differ from channels first..last of the original '
+                         None,
+                         'subrange(first,last) channel centres / width differ from channels first..last of the original '
                          '(or an invalid range was accepted / a valid one rejected)',
                          spec=None if want is None else [float(v) for v in want])
-        ctx.note_case(('subrange', centre, bw, n, side, f, l), nontrivial=(0 <= f < l <= n))
-    for m, o in zip(ms, outs[1 + len(subs):]):
+        if outs is not None:
+            o = outs[1 + k]
+            exp = [fq(p) for p in o[1]] if o else None
+            if got != exp or (s is not None and spw_attrs(s) != model_attrs(o[0])):
+                ctx.disagree('what=subrange_tie', dict(case, first=f, last=l),
+                             None if got is None else [float(v) for v in got],
+                             None if exp is None else [float(v) for v in exp], 'subrange differs from the model', kind='tie')
+        ctx.note_case(('subrange', centre, bw, n, side, f, l, via_width), nontrivial=valid)
+    lo0 = f0[0] - side * cw0 / 2
+    hi0 = f0[-1] + side * cw0 / 2
+    for k, m in enumerate(ms):
         r = w.rechannelise(m)
         got = [exact(v) for v in r.channel_freqs]
-        cwr = Fraction(r.bandwidth) / r.num_chans
-        lo = got[0] - r.sideband * cwr / 2
-        hi = got[-1] + r.sideband * cwr / 2
-        cw0 = Fraction(bw) / n
-        f0 = [exact(v) for v in w.channel_freqs]
-        lo0 = f0[0] - side * cw0 / 2
-        hi0 = f0[-1] + side * cw0 / 2
-        if got != [fq(p) for p in o[1]]:
-            ctx.disagree('what=rechannelise_tie', dict(case, m=m), [float(v) for v in got],
-                         [float(fq(p)) for p in o[1]], 'rechannelise differs from model', kind='tie')
-        if (lo, hi) != (lo0, hi0) or r.num_chans != m:
-            ctx.disagree('what=rechannelise_edges', dict(case, m=m), [float(lo), float(hi)], [float(lo0), float(hi0)],
-                         'rechannelise moved a band edge')
-        ctx.note_case(('rechan', centre, bw, n, side, m), nontrivial=m != n)
-    ctx.note_case(('spw', centre, bw, n, side), sample=dict(kind='spw', **case))
+        cwr = Fraction(bw) / m
+        lo = got[0] - side * cwr / 2
+        hi = got[-1] + side * cwr / 2
+        if outs is not None:
+            o = outs[1 + len(subs) + k]
+            if got != [fq(p) for p in o[1]] or spw_attrs(r) != model_attrs(o[0]):
+                ctx.disagree('what=rechannelise_tie', dict(case, m=m), [float(v) for v in got],
+                             [float(fq(p)) for p in o[1]], 'rechannelise differs from model', kind='tie')
+        bad_grid = [(j, kk) for j in range(m) for kk in range(n)
+                    if j * n == kk * m and got[j] - side * cwr / 2 != f0[kk] - side * cw0 / 2]
+        if (lo, hi) != (lo0, hi0) or r.num_chans != m or len(got) != m or exact(r.channel_width) != cwr \
+                or exact(r.bandwidth) != Fraction(bw) or r.sideband != side or bad_grid:
+            ctx.disagree('what=rechannelise_edges', dict(case, m=m), [float(lo), float(hi)], None,
+                         'rechannelise moved a band edge / a shared channel edge, or changed bandwidth, sideband or the count',
+                         spec=[float(lo0), float(hi0)])
+        ctx.note_case(('rechan', centre, bw, n, side, m, via_width), nontrivial=m != n)
+    ctx.note_case(('spw', centre, bw, n, side, via_width), sample=dict(kind='spw', **case))
     ctx.count('spw')
 
 
 # ---------------------------------------------------------------------------- preselect == select
 
-def check_preselect_equiv(ctx, t, T, F, a, b, c, d_):
-    x = build(t, T, F, ctx.seed + 7)
-    case = dict(timing={k: (float(v) if isinstance(v, float) else v) for k, v in t.items()}, T=T, F=F, dumps=[a, b], channels=[c, d_])
+CENTRES = [1284.0, 856.0 * 1024, 0.0, 1284e6]
+NAMES = ['timestamps', 'freqs', 'channel_width', 'vis', 'flags', 'weights', 'sensor', 'shape', 'start_end']
+
+
+def obs(ds):
+    return dict(timestamps=np.asarray(ds.timestamps), freqs=np.asarray(ds.freqs), vis=ds.vis[:],
+                channel_width=np.asarray(ds.channel_width),
+                flags=ds.flags[:], weights=ds.weights[:], sensor=np.asarray(ds.sensor['anc_air_temperature']),
+                shape=np.asarray(ds.shape))
+
+
+def check_preselect_equiv(ctx, t, T, F, dsl, csl, via='direct', cw=1.0, centre=1284.0, sub=None):
+    """dsl / csl: (start, stop) of the dumps / channels preselection, or None for 'key not given'."""
+    a, b, _ = slice(*(dsl or (None, None))).indices(T)
+    c, d_, _ = slice(*(csl or (None, None))).indices(F)
+    x = build(t, T, F, ctx.seed + 7, cw=cw, centre=centre)
+    case = dict(timing=timing_case(t), T=T, F=F, dsl=None if dsl is None else list(dsl),
+                csl=None if csl is None else list(csl), via=via, cw=cw, centre=centre)
+    bw = F * cw
+    want_f = [Fraction(centre) + (k - F // 2) * Fraction(bw) / F for k in range(F)]   # the property itself
     try:
         full = x.d
-        pre = dict(dumps=slice(a, b), channels=slice(c, d_))
-        dp = v4.reopen(x, dict(preselect=pre), dict(preselect=pre, time_offset=t['off']))
-        full.select(dumps=slice(a, b), channels=slice(c, d_))
-        names = ['timestamps', 'freqs', 'vis', 'flags', 'weights', 'sensor', 'shape']
+        f_full = [exact(v) for v in full.freqs]
+        if f_full != want_f or exact(full.channel_width) != Fraction(cw):
+            ctx.disagree('what=v4_freqs;preselect=False', case, [float(v) for v in f_full[:4]], None,
+                         'freqs / channel_width of the data set differ from center_freq + (k - N//2) * bandwidth / N',
+                         spec=[float(v) for v in want_f[:4]])
+        pre = {}
+        sel = {}
+        if dsl is not None:
+            pre['dumps'] = slice(*dsl)
+            sel['dumps'] = slice(*dsl)
+        if csl is not None:
+            pre['channels'] = slice(*csl)
+            sel['channels'] = slice(*csl)
+        try:
+            dp = open_pre(x, t, pre, via)
+        except IndexError:
+            if b <= a or d_ <= c:
+                ctx.note_case(('pre-empty', repr(sorted(t.items())), T, F, dsl, csl, via), nontrivial=False)
+                ctx.count('preselect_equiv:empty_rejected')
+                return
+            raise
+        f_pre = [exact(v) for v in dp.freqs]
+        if f_pre != want_f[c:d_] or exact(dp.channel_width) != Fraction(cw):
+            ctx.disagree('what=v4_freqs;preselect=True', case, [float(v) for v in f_pre[:4]], None,
+                         'freqs / channel_width of the preselected data set differ from those of channels c..d',
+                         spec=[float(v) for v in want_f[c:d_][:4]])
+        if ctx.model_ok and d_ > c:
+            mo = ctx.model([[17, [6, q(centre), q(bw), F, c, d_]]])[0]
+            sw = dp.spectral_windows[0]
+            if f_full != [fq(p) for p in mo[1]] or want_f != [fq(p) for p in mo[2]] or not mo[3] \
+                    or f_pre != [fq(p) for p in mo[3][1]] or spw_attrs(full.spectral_windows[0]) != model_attrs(mo[0]) \
+                    or spw_attrs(sw) != model_attrs(mo[3][0]):
+                ctx.disagree('what=v4_freqs_tie', case, [float(v) for v in f_pre[:4]],
+                             [float(fq(p)) for p in (mo[3][1] if mo[3] else [])][:4],
+                             'spectral window of the (preselected) data set differs from the model', kind='tie')
+        full.select(**sel)
 
-        def obs(ds):
-            return dict(timestamps=np.asarray(ds.timestamps), freqs=np.asarray(ds.freqs), vis=ds.vis[:],
-                        flags=ds.flags[:], weights=ds.weights[:], sensor=np.asarray(ds.sensor['anc_air_temperature']),
-                        shape=np.asarray(ds.shape))
-        o1, o2 = obs(dp), obs(full)
-        for nm in names:
+        def full_obs(ds, is_pre):
+            o = obs(ds)
+            # start/end are attributes of the data set as opened: the preselected one must bracket ITS dumps
+            o['start_end'] = np.array([ds.start_time.secs, ds.end_time.secs]) if is_pre else \
+                np.array([ds.timestamps[0] - 0.5 * t['int_time'], ds.timestamps[-1] + 0.5 * t['int_time']]) \
+                if len(ds.timestamps) else np.array([])
+            return o
+        o1, o2 = full_obs(dp, True), full_obs(full, False)
+        for nm in NAMES:
             if not np.array_equal(o1[nm], o2[nm]):
-                if nm in ('timestamps', 'sensor') and straddles(t, a):
+                if nm in ('timestamps', 'sensor', 'start_end') and straddles(t, a):
                     sig = 'preselect;straddles_fix_date;symptom=timestamps_shifted_by_cbf_dump'
                 else:
-                    sig = 'what=preselect_equiv;observable=%s' % nm
+                    sig = 'what=preselect_equiv;observable=%s;keys=%s' % (nm, '+'.join(sorted(pre)))
                 ctx.disagree(sig, case, np.asarray(o1[nm]).ravel()[:4].tolist(), None,
                              'preselected data set differs from select() on the whole data set in ' + nm,
                              spec=np.asarray(o2[nm]).ravel()[:4].tolist())
         # later selections are relative to the preselected subset
         if b - a >= 2 and d_ - c >= 2:
-            x0 = ctx.rng.randint(0, b - a - 1)
-            x1 = ctx.rng.randint(x0 + 1, b - a)
-            y0 = ctx.rng.randint(0, d_ - c - 1)
-            y1 = ctx.rng.randint(y0 + 1, d_ - c)
+            if sub is None:
+                x0 = ctx.rng.randint(0, b - a - 1)
+                x1 = ctx.rng.randint(x0 + 1, b - a)
+                y0 = ctx.rng.randint(0, d_ - c - 1)
+                y1 = ctx.rng.randint(y0 + 1, d_ - c)
+            else:
+                x0, x1, y0, y1 = sub
             dp.select(dumps=slice(x0, x1), channels=slice(y0, y1))
             full.select(dumps=slice(a + x0, a + x1), channels=slice(c + y0, c + y1))
             o1, o2 = obs(dp), obs(full)
-            for nm in names:
+            for nm in NAMES:
+                if nm == 'start_end':
+                    continue
                 if not np.array_equal(o1[nm], o2[nm]) and not (nm in ('timestamps', 'sensor') and straddles(t, a)):
                     ctx.disagree('what=preselect_relative_select;observable=%s' % nm, dict(case, sub=[x0, x1, y0, y1]),
                                  np.asarray(o1[nm]).ravel()[:4].tolist(), None,
@@ -235,37 +430,68 @@ def check_preselect_equiv(ctx, t, T, F, a, b, c, d_):
     finally:
         v4.cleanup(x)
     ctx.traces_validated += 1
-    ctx.note_case(('pre', repr(sorted(t.items())), T, F, a, b, c, d_), nontrivial=(b - a >= 2 and d_ - c >= 2),
+    ctx.note_case(('pre', repr(sorted(t.items())), T, F, dsl, csl, via, cw, centre), nontrivial=(b - a >= 2 and d_ - c >= 2),
                   sample=dict(kind='preselect_equiv', **case))
     ctx.count('preselect_equiv')
+    ctx.count('preselect_equiv:keys=' + '+'.join(sorted(pre)))
+    ctx.count('preselect_equiv:F_%s' % ('odd' if F % 2 else 'even'))
+    ctx.count('preselect_equiv:via_' + via)
+
+
+# ---------------------------------------------------------------------------- preselect validation
+
+FORMS = [dict(dumps=slice(0, 2)), dict(channels=slice(1, 3)), dict(dumps=slice(0, 4, 1)), dict(dumps=slice(0, 4, 2)),
+         dict(channels=slice(None, None, -1)), dict(ants='m000'), dict(dumps=slice(0, 2), corrprods='auto'),
+         dict(dumps=slice(None), channels=slice(None, 2, None)), dict(targets=0), dict(dumps=slice(1, 3, 3)),
+         dict(dumps=2), dict(channels=[0, 1]), dict(dumps=slice(0, 2, 0)), dict(Dumps=slice(0, 2)), dict(dump=slice(0, 2)),
+         dict(timerange=(0, 1)), dict(scans='track'), dict(freqrange=(0, 1e9)), dict(pol='h'), dict(spw=0),
+         dict(channels=slice(0, 2), dumps=slice(1, 3, -1)), dict(channels=slice(0, 4, 2), dumps=slice(1, 3)),
+         dict(dumps=slice(0, 2), channels=slice(0, 2), flags='cam'), dict(channels=np.arange(2)), {}]
+KEY_POOL = ['dumps', 'channels', 'dumps', 'channels', 'ants', 'corrprods', 'timerange', 'targets', 'channel', 'scans',
+            'compscans', 'inputs', 'pol', 'freqrange', 'weights', 'flags', 'reset', 'strict', 'subarray', 'spw']
+
+
+def check_preselect_form(ctx, x, pre):
+    keys = [[ord(ch) for ch in k] for k in pre]
+    steps = [([v.step] if (isinstance(v, slice) and v.step is not None) else ([] if isinstance(v, slice) else [99]))
+             for v in pre.values()]
+    mo = ctx.model([[17, [5, keys, steps]]])[0] if ctx.model_ok else None
+    try:
+        v4.reopen(x, dict(preselect=pre), dict(preselect=pre))
+        ok = 1
+    except (IndexError, TypeError, ValueError, AssertionError):
+        ok = 0
+    want = int(set(pre) <= {'dumps', 'channels'} and
+               all(isinstance(v, slice) and (v.step is None or (type(v.step) is int and v.step == 1)) for v in pre.values()))
+    if ok != want:
+        bad_key = not set(pre) <= {'dumps', 'channels'}
+        ctx.disagree('what=preselect_validation;%s' % ('unknown_key' if bad_key else 'step'), dict(preselect=repr(pre)), ok, None,
+                     'preselect accepted/rejected contrary to the rule (only unit-step dumps/channels slices)',
+                     spec=want)
+    if mo is not None and mo != ok:
+        ctx.disagree('what=preselect_validation_tie', dict(preselect=repr(pre)), ok, mo,
+                     'preselect validation differs from the model', kind='tie')
+    ctx.note_case(('preval', repr(pre)), sample=None)
+    ctx.count('preselect_validation')
 
 
 def check_preselect_validation(ctx):
-    x = build(gen_timing(ctx.rng), 4, 4, ctx.seed)
-    forms = [dict(dumps=slice(0, 2)), dict(channels=slice(1, 3)), dict(dumps=slice(0, 4, 1)), dict(dumps=slice(0, 4, 2)),
-             dict(channels=slice(None, None, -1)), dict(ants='m000'), dict(dumps=slice(0, 2), corrprods='auto'),
-             dict(dumps=slice(None), channels=slice(None, 2, None)), dict(targets=0), dict(dumps=slice(1, 3, 3))]
+    rng = ctx.rng
+    x = build(gen_timing(rng), 4, 4, ctx.seed)
     try:
-        for pre in forms:
-            keys = [[ord(ch) for ch in k] for k in pre]
-            steps = [([v.step] if (isinstance(v, slice) and v.step is not None) else ([] if isinstance(v, slice) else [99]))
-                     for v in pre.values()]
-            mo = ctx.model([[17, [5, keys, steps]]])[0] if ctx.model_ok else None
-            try:
-                v4.reopen(x, dict(preselect=pre), dict(preselect=pre))
-                ok = 1
-            except (IndexError, TypeError, ValueError, AssertionError):
-                ok = 0
-            want = int(set(pre) <= {'dumps', 'channels'} and all(isinstance(v, slice) and v.step in (None, 1) for v in pre.values()))
-            if ok != want or (mo is not None and mo != want):
-                ctx.disagree('what=preselect_validation', dict(preselect=repr(pre)), ok, mo,
-                             'preselect accepted/rejected contrary to the rule (only unit-step dumps/channels slices)',
-                             spec=want)
-            ctx.note_case(('preval', repr(pre)), sample=None)
-            ctx.count('preselect_validation')
+        for pre in FORMS:
+            check_preselect_form(ctx, x, pre)
+        for _ in range(ctx.scale(40, 400)):
+            pre = {}
+            for k in rng.sample(KEY_POOL, rng.randint(1, 3)):
+                a = rng.randint(0, 2)
+                pre[k] = slice(a, rng.randint(a + 1, 4), rng.choice([None, None, 1, 1, 2, -1, 3, 0]))
+            check_preselect_form(ctx, x, pre)
     finally:
         v4.cleanup(x)
 
+
+# ---------------------------------------------------------------------------- driver
 
 def run(ctx):
     rng = ctx.rng
@@ -273,35 +499,49 @@ def run(ctx):
     for f in ctx.findings:
         w = f['witness']
         check_timing(ctx, w['timing'], w['T'], w['a'], w['b'])
-    for _ in range(ctx.scale(150, 1500)):
+    check_fix_date_reading(ctx)
+    for _ in range(ctx.scale(170, 1700)):
         t = gen_timing(rng)
         T = rng.randint(1, 6)
-        if rng.random() < 0.5:
-            a, b = 0, T
+        via = 'open' if rng.random() < 0.2 else 'direct'
+        if rng.random() < 0.45:
+            sl = (0, T)
         else:
-            a = rng.randint(0, T - 1)
-            b = rng.randint(a + 1, T)
-        check_timing(ctx, t, T, a, b)
+            sl = gen_slice(rng, T)
+        check_timing(ctx, t, T, via=via, sl=sl)
     for (centre, bw, n, side) in spw_cases(ctx):
-        check_spw(ctx, centre, bw, n, side)
-    for _ in range(ctx.scale(60, 600)):
+        check_spw(ctx, centre, bw, n, side, via_width=rng.random() < 0.3)
+    for _ in range(ctx.scale(70, 700)):
         t = gen_timing(rng)
-        T, F = rng.randint(2, 8), rng.choice([4, 8])
-        a = rng.randint(0, T - 1)
-        b = rng.randint(a + 1, T)
-        c = rng.randint(0, F - 1)
-        d_ = rng.randint(c + 1, F)
-        check_preselect_equiv(ctx, t, T, F, a, b, c, d_)
+        T, F = rng.randint(2, 8), rng.choice([4, 8, 3, 5, 6, 7, 9, 2])
+        k = rng.random()
+        dsl = None if k < 0.15 else gen_slice(rng, T)
+        csl = None if 0.15 <= k < 0.3 else gen_slice(rng, F)
+        via = 'open' if rng.random() < 0.25 else 'direct'
+        check_preselect_equiv(ctx, t, T, F, dsl, csl, via=via, cw=rng.choice([1.0, 0.5, 4.0, 208984.375]),
+                              centre=rng.choice(CENTRES))
     check_preselect_validation(ctx)
-    v4.cleanup_all() if False else None
 
 
 def replay(ctx, doc):
     case = doc['case']
-    if 'dumps' in case:
-        check_preselect_equiv(ctx, case['timing'], case['T'], case['F'], case['dumps'][0], case['dumps'][1],
-                              case['channels'][0], case['channels'][1])
+    if 'dsl' in case or 'dumps' in case:
+        if 'dumps' in case:       # replay files written before the slices became part of the case
+            case = dict(case, dsl=case['dumps'], csl=case['channels'])
+        check_preselect_equiv(ctx, case['timing'], case['T'], case['F'], case['dsl'], case['csl'],
+                              via=case.get('via', 'direct'), cw=case.get('cw', 1.0), centre=case.get('centre', 1284.0),
+                              sub=case.get('sub'))
     elif 'timing' in case:
-        check_timing(ctx, case['timing'], case['T'], case['a'], case['b'])
+        check_timing(ctx, case['timing'], case['T'], case['a'], case['b'], via=case.get('via', 'direct'),
+                     sl=case.get('sl'))
     elif 'num_chans' in case:
-        check_spw(ctx, case['centre'], case['bandwidth'], case['num_chans'], case['sideband'])
+        check_spw(ctx, case['centre'], case['bandwidth'], case['num_chans'], case['sideband'],
+                  via_width=case.get('via_width', False))
+    elif 'preselect' in case:
+        x = build(gen_timing(ctx.rng), 4, 4, ctx.seed)
+        try:
+            check_preselect_form(ctx, x, eval(case['preselect'], dict(slice=slice, array=np.array, np=np)))
+        finally:
+            v4.cleanup(x)
+    elif 'date' in case:
+        check_fix_date_reading(ctx)
